@@ -13,6 +13,13 @@
 (*     resumed = a frame sent after the last fault was delivered             *)
 (*     stalled = the reader neither delivered nor closed within the bound    *)
 (*     clear   = some 16-byte window of a payload was seen on the wire       *)
+(* Successor links: the two routers of a "link" event may have had links     *)
+(* before (each with a "link" event of its own).  The frames handed to a     *)
+(* link are numbered per link: what arrives on this link and is a frame of   *)
+(* an earlier link (its sealed record was put on this link's wire, op        *)
+(* prev-link of LinkLayer) has id 0 here - it was never handed to THIS link  *)
+(* - and is refused by Delivered like any other foreign frame; the fields    *)
+(* "prev" and "note" of such an event only name it.                          *)
 (***************************************************************************)
 EXTENDS Integers, Sequences, FiniteSets, TLC, Json
 
